@@ -686,6 +686,7 @@ pub fn evaluate(property: &str, v: &View) -> Vec<Violation> {
         "C01" => c01(v),
         "C02" => c02(v),
         "C03" => c03(v),
+        "C04" => crate::oracle3::c04(v),
         "C06" => crate::oracle2::c06(v),
         "C08" => crate::oracle2::c08(v),
         "C12" => crate::oracle2::c12(v),
@@ -768,6 +769,14 @@ pub fn nontrivial(property: &str, v: &View, s: &RunStats) -> bool {
         }
         "C03" => {
             p("stream_data_blocked_sent") + p("data_blocked_sent") + p("streams_blocked_sent") + p("reset_stream_sent") > 0
+        }
+        "C04" => {
+            // the byzantine frame was actually processed by the victim
+            v.out.obs.byz_fired.iter().any(|(_, _, _, seq)| {
+                v.out.obs.tx.iter().find(|t| t.seq == *seq).map_or(false, |t| {
+                    v.out.obs.rx.iter().any(|r| r.space == t.space && r.pn == t.pn && r.hash == t.hash)
+                })
+            })
         }
         "C06" => {
             // a forged / mutated / replayed datagram actually reached an endpoint
